@@ -159,6 +159,17 @@ func init() {
 			c.Floor("C07.R1", "handler invocation sites", c.Stats["handler_invocation_sites"], 7)
 			c.Floor("C07.R1", "sequential lock sites", c.Stats["seq_lock_sites"], 2)
 			checkAsyncSequencing(c, p, R)
+			// the only other place the user's handler is called: SubscribeWithReplay's
+			// replay phase, which must be over before the (possibly Sequential) live
+			// registration exists
+			c7 := NewCtx(c.Prop, c.Tier, c.Repo)
+			checkResume(c7, p, R)
+			for _, o := range c7.Obls {
+				if strings.Contains(o.Construct, "live-registration-after-replay") {
+					o.Rule = "C07.R1"
+					c.add(o)
+				}
+			}
 			c.Assume = append(c.Assume, "sync.Mutex provides mutual exclusion; it is not FIFO")
 		},
 	})
